@@ -978,7 +978,9 @@ where
                 // break and wait for more read
                 Ok(None) => break,
 
-                Err(ParseError::Io(err)) => {
+                // malformed chunked encoding surfaces as `InvalidInput`; it is a parse error
+                // (answered with 400 below), not a lost connection
+                Err(ParseError::Io(err)) if err.kind() != io::ErrorKind::InvalidInput => {
                     trace!("I/O error: {}", &err);
                     self.as_mut().client_disconnected();
                     this = self.as_mut().project();
